@@ -246,30 +246,30 @@ type deferRec struct {
 }
 
 type Loop struct {
-	head   *ssa.BasicBlock
-	blocks map[*ssa.BasicBlock]bool
-	ord    int
-	backs  []*ssa.BasicBlock
+	head    *ssa.BasicBlock
+	blocks  map[*ssa.BasicBlock]bool
+	ord     int
+	backs   []*ssa.BasicBlock
 	written []string
 }
 
 type Frame struct {
-	ex      *Exec
-	fn      *ssa.Function
-	vals    map[ssa.Value]Val
-	parent  *Frame
-	depth   int
-	defers  []*deferRec
-	rets    []Exit
-	panics  []Exit
-	loops   map[*ssa.BasicBlock]*Loop
-	cur     string
-	st      *State
-	top     bool
-	callOrd map[ssa.Instruction]int
-	iters   map[*ssa.Range]*IterInfo
-	loopCtx map[*ssa.BasicBlock]*LoopCtx
-	dbg     map[string][]*ssa.DebugRef
+	ex       *Exec
+	fn       *ssa.Function
+	vals     map[ssa.Value]Val
+	parent   *Frame
+	depth    int
+	defers   []*deferRec
+	rets     []Exit
+	panics   []Exit
+	loops    map[*ssa.BasicBlock]*Loop
+	cur      string
+	st       *State
+	top      bool
+	callOrd  map[ssa.Instruction]int
+	iters    map[*ssa.Range]*IterInfo
+	loopCtx  map[*ssa.BasicBlock]*LoopCtx
+	dbg      map[string][]*ssa.DebugRef
 	lastSort *sortInfo
 }
 
@@ -846,9 +846,10 @@ type candidate struct{ name, term string }
 // candidates: inferred (Houdini) loop invariants. Each is assumed at the loop
 // head and checked at entry and on every back edge; the driver drops the ones
 // that fail and regenerates.
-//   frame0.K : objects that existed at function entry are unchanged in K since function entry
-//   frameL.K : objects that existed at loop entry are unchanged in K since loop entry
-//   fresh.v  : the loop-carried slice/reference v was allocated by this function (or is nil)
+//
+//	frame0.K : objects that existed at function entry are unchanged in K since function entry
+//	frameL.K : objects that existed at loop entry are unchanged in K since loop entry
+//	fresh.v  : the loop-carried slice/reference v was allocated by this function (or is nil)
 func (fr *Frame) candidates(l *Loop, phiVals map[*ssa.Phi]Val, st *State) []candidate {
 	ex := fr.ex
 	var out []candidate
